@@ -295,7 +295,7 @@ def s2c(ctx, parsers, cases, budget_tokens):
         expected = {'ok': c['ok'], 'ast': c['ast']}
         for j in range(layouts[ci]):
             lr = random.Random('%d/%d/%d' % (ctx.seed, ci, j))
-            if c['fam'] in ('lit', 'corner', 'chain', 'kwprefix') and j == 0:
+            if c['fam'] == 'kwprefix' and j == 0:
                 text = B.layout(c['tokens'], lr, plain=True)
             else:
                 text = B.layout(c['tokens'], lr)
